@@ -167,15 +167,117 @@ Proof.
   destruct H as (Hk & -> & Hr). cbn [nfind]. rewrite Hk, (IH r r' Hr). reflexivity.
 Qed.
 
-(* C13 spelling, partial: labels, their uniqueness verdict and every
-   by-value look-up are the same for all spellings.  (Not proved: that the
-   direct-hit shortcut of lookupLabel agrees with the scan when labels are
-   unique, hence full invariance of validate_params; the exhaustive grid of
-   the C13 check covers it on the implementation.) *)
-Theorem spelling_labels_partial h h' :
-  respelled h h' ->
-  norm_labels h = norm_labels h' /\ (forall want, nfind want h = nfind want h').
-Proof. intros H. split; [apply respelled_norm_labels; auto|intros; apply respelled_nfind; auto]. Qed.
+(* ---- full spelling invariance of the validator ---- *)
+Lemma key_eqb_sym a b : key_eqb a b = key_eqb b a.
+Proof.
+  destruct a, b; cbn; auto.
+  - destruct k, k0; cbn; auto; apply Z.eqb_sym.
+  - revert s0. induction s as [|x s IH]; intros [|y t]; cbn; auto. rewrite Z.eqb_sym, IH. reflexivity.
+  - destruct b, b0; reflexivity.
+  - revert b0. induction b as [|x s IH]; intros [|y t]; cbn; auto. rewrite Z.eqb_sym, IH. reflexivity.
+  - apply Z.eqb_sym.
+Qed.
+
+Lemma key_eqb_refl_label k : is_label k -> key_eqb k k = true.
+Proof. intros [[n ->]|[s ->]]; cbn; [rewrite Z.eqb_refl; reflexivity|apply bytes_eqb_refl]. Qed.
+
+(* a normalised label is its own normal form *)
+Lemma normalize_label_idem k k' : normalize_label k = Some k' -> normalize_label k' = Some k'.
+Proof.
+  destruct k; cbn; try discriminate.
+  - destruct (is_signed_kind k || is_unsigned_kind k); [|discriminate]. intros H; inversion H; subst.
+    cbn. rewrite wrap64_idem. reflexivity.
+  - intros H; inversion H; subst. reflexivity.
+Qed.
+
+Lemma key_eqb_label_eq want k : is_label want -> key_eqb want k = true -> k = want.
+Proof.
+  intros [[n ->]|[s ->]]; destruct k; cbn; try discriminate.
+  - destruct k; cbn; try discriminate. intros H. f_equal. lia.
+  - intros H. apply bytes_eqb_eq in H. subst. reflexivity.
+Qed.
+
+(* with unique normalised labels, every entry is what a by-value look-up of its label finds *)
+Lemma nfind_entry : forall h ks k v want,
+  norm_labels h = Some ks -> labels_nodup ks = true ->
+  entry_in k v h -> normalize_label k = Some want -> nfind want h = Some v.
+Proof.
+  fix IH 1. intros [|k0 [|v0 r]] ks k v want Hn Hd Hin Hk; try contradiction.
+  cbn [norm_labels] in Hn. destruct (normalize_label k0) as [k0'|] eqn:N0; [|discriminate].
+  destruct (norm_labels r) as [ks'|] eqn:Nr; [|discriminate]. inversion Hn; subst ks; clear Hn.
+  cbn [labels_nodup] in Hd. apply andb_true_iff in Hd as [Hd1 Hd2]. apply negb_true_iff in Hd1.
+  cbn [nfind]. rewrite N0. destruct Hin as [[-> ->]|Hin].
+  - rewrite N0 in Hk. inversion Hk; subst. rewrite key_eqb_refl_label by (eapply normalize_label_is_label; eauto). reflexivity.
+  - destruct (norm_labels_in r ks' k v Nr Hin) as (w' & Hw & Hi). rewrite Hk in Hw. inversion Hw; subst w'.
+    assert (E : key_eqb want k0' = false).
+    { destruct (key_eqb want k0') eqn:E; auto. exfalso.
+      rewrite key_eqb_sym in E. assert (existsb (key_eqb k0') ks' = true) by (apply existsb_exists; eauto). congruence. }
+    rewrite E. eapply IH; eauto.
+Qed.
+
+Lemma glookup_entry want : forall h v, glookup want h = Some v -> exists k, entry_in k v h /\ key_eqb want k = true.
+Proof.
+  fix IH 1. intros [|k0 [|v0 r]] v H; try discriminate.
+  cbn [glookup] in H. destruct (key_eqb want k0) eqn:E.
+  - inversion H; subst. exists k0. split; [left; auto|exact E].
+  - destruct (IH r v H) as (k & Hi & Hk). exists k. split; [right; exact Hi|exact Hk].
+Qed.
+
+(* lookupLabel's direct-hit shortcut agrees with its scan when labels are unique *)
+Lemma nlookup_is_nfind h ks l :
+  norm_labels h = Some ks -> labels_nodup ks = true ->
+  nlookup l h = match normalize_label l with Some want => nfind want h | None => None end.
+Proof.
+  intros Hn Hd. unfold nlookup. destruct (normalize_label l) as [want|] eqn:Nl; auto.
+  destruct (glookup want h) as [v|] eqn:G; auto.
+  destruct (glookup_entry want h v G) as (k & Hin & Hk).
+  assert (Hl : is_label want) by (eapply normalize_label_is_label; eauto).
+  apply key_eqb_label_eq in Hk; auto. subst k.
+  symmetry. eapply nfind_entry; eauto. eapply normalize_label_idem; eauto.
+Qed.
+
+Lemma respelled_nlookup h h' ks l :
+  respelled h h' -> norm_labels h = Some ks -> labels_nodup ks = true -> nlookup l h = nlookup l h'.
+Proof.
+  intros Hr Hn Hd. rewrite (nlookup_is_nfind h ks l Hn Hd).
+  rewrite (nlookup_is_nfind h' ks l); auto; [|rewrite <- (respelled_norm_labels _ _ Hr); auto].
+  destruct (normalize_label l); auto. apply respelled_nfind; auto.
+Qed.
+
+Lemma check_param_ext prot whole whole' k' v :
+  (forall l, nlookup l whole = nlookup l whole') -> check_param prot whole k' v = check_param prot whole' k' v.
+Proof.
+  intros H. unfold check_param, has_label, ensure_critical. destruct k'; auto. destruct k; auto.
+  rewrite !H. destruct v; auto.
+  repeat match goal with |- context [if ?c then _ else _] => destruct c; auto end.
+  f_equal. f_equal. induction l as [|x l IHl]; cbn [forallb]; auto. rewrite H, IHl. reflexivity.
+Qed.
+
+Lemma check_entries_respelled prot whole whole' : forall h h',
+  (forall l, nlookup l whole = nlookup l whole') -> respelled h h' ->
+  check_entries prot whole h = check_entries prot whole' h'.
+Proof.
+  fix IH 1. intros [|k [|v r]] [|k' [|v' r']] Hw Hr; try contradiction; try reflexivity.
+  destruct Hr as (Hk & -> & Hr). cbn [check_entries]. rewrite Hk.
+  destruct (normalize_label k'); auto. rewrite (check_param_ext prot whole whole' _ _ Hw), (IH r r' Hw Hr). reflexivity.
+Qed.
+
+(* C13: the verdict of validateHeaderParameters does not depend on which Go integer type spells a label *)
+Theorem validate_params_spelling h h' prot :
+  respelled h h' -> validate_params h prot = validate_params h' prot.
+Proof.
+  intros Hr. unfold validate_params. rewrite <- (respelled_norm_labels _ _ Hr).
+  destruct (norm_labels h) as [ks|] eqn:Hn; auto.
+  destruct (labels_nodup ks) eqn:Hd; auto. cbn [andb].
+  apply check_entries_respelled; auto. intros l. eapply respelled_nlookup; eauto.
+Qed.
+
+(* non-vacuity: the same bucket spelled with int8 / uint16 labels *)
+Example respelled_example :
+  respelled [GInt KInt64 4; GBytes [1]; GInt KInt64 2; GArr [GInt KInt64 4]]
+            [GInt KInt8 4; GBytes [1]; GInt KUint16 2; GArr [GInt KInt64 4]] /\
+  validate_params [GInt KInt8 4; GBytes [1]; GInt KUint16 2; GArr [GInt KInt64 4]] true = true.
+Proof. split; [cbn; auto|reflexivity]. Qed.
 
 (* ------------------------------------------------------------------ *)
 (* C12: hash envelopes                                                  *)
@@ -318,4 +420,18 @@ Theorem set_he_protected_carries base p :
   glookup (lbl c_HeaderLabelPayloadHashAlgorithm) (set_he_protected base p) = Some (GInt KAlg (he_alg p)).
 Proof.
   intros Hc Hl. unfold set_he_protected. rewrite Hc, Hl. apply glookup_gset_lbl.
+Qed.
+
+(* C04, decoded messages: the alg consulted by Sign / Verify is the alg entry of
+   the protected bytes that are signed (the map decoded from exactly those bytes) *)
+Theorem decoded_alg_is_wire_alg p pm :
+  dec_protected p = Acc pm ->
+  (exists w, p = WStr false w [] /\ alg_of (Some pm) = Rej EAlgNotFound) \/
+  (exists w c wm l ks vs, p = WStr false w c /\ lib_wf true c = Some (WMap wm l) /\
+                          labels_pass l = Acc ks /\ values_pass l = Acc vs /\
+                          alg_of (Some pm) = alg_of (Some (zip_flat ks vs))).
+Proof.
+  intros H. apply dec_protected_inv in H as (w & c & -> & [[-> ->]|(wm & l & ks & vs & L & LP & _ & VP & _ & ->)]).
+  - left. exists w. split; reflexivity.
+  - right. exists w, c, wm, l, ks, vs. repeat split; auto. apply alg_of_cast_alg.
 Qed.
